@@ -90,6 +90,14 @@ fmt.format(amount)
 description.format(amount)
 field.code.format(contains)
 "%s" % description
+date >= "2025-01-01"
+txn.date == "2025-01-15"
+"2025-01-01" < date
+field.date != "2024-12-31"
+rows[0].when > "2025-01-01"
+[r.amt for r in rows if r.when >= "2025-01-03"]
+date >= "2025-01-01" and date <= "2025-12-31"
+dd == "2025-01-02"
 "%s" % (x for x in rows)
 "%r" % (r.amt for r in rows)
 "%s and %s" % ((x for x in rows), 1)
